@@ -404,9 +404,39 @@ def _from_py(parsed):
     return out
 
 
-def _parse(s):
-    """-> (observation dict, python structure | None)"""
+def _scribble(parsed):
+    """Edit, in place, everything a parse handed out (what a caller may do with its own result)."""
+    try:
+        for alts in parsed:
+            for d in alts:
+                if isinstance(d.get("arch"), list):
+                    d["arch"].append(d["arch"][0] if d["arch"] else None)
+                    d["arch"].reverse()
+                if isinstance(d.get("restrictions"), list):
+                    for g in d["restrictions"]:
+                        if isinstance(g, list):
+                            g.append(g[0] if g else None)
+                    d["restrictions"].append([])
+                d["name"] = "scribbled"
+                d["version"] = ("=", "0scribbled")
+                d["archqual"] = "scribbled"
+            alts.append({"name": "scribbled"})
+        parsed.append([])
+    except Exception:
+        pass
+
+
+def _parse(s, earlier=True):
+    """-> (observation dict, python structure | None).  With [earlier]: the same text was parsed before, in the same
+    process, and that earlier result was edited in place by its owner; the parse observed must not show any of it."""
     from debian.deb822 import PkgRelation
+    if earlier:
+        with warnings.catch_warnings():
+            warnings.simplefilter("ignore")
+            try:
+                _scribble(PkgRelation.parse_relations(s))
+            except Exception:
+                pass
     with warnings.catch_warnings(record=True) as w:
         warnings.simplefilter("always")
         try:
